@@ -21,6 +21,7 @@ CACHE_KW = [["region", "short"], ["timeout", "60"], ["verif_x", "7"]]      # the
 
 def _cache_plugin():
     from mako.cache import CacheImpl, register_plugin
+    from . import c16_nsmod  # noqa: imported once, outside any scheduled thread
 
     class DictCache(CacheImpl):
         """A backend without any locking: check-then-set on a plain dict."""
@@ -53,7 +54,7 @@ def _cache_plugin():
 def gen_body(rng, n_items, marks, depth=0):
     """Random abstract body: list of items; `marks` is a one-element list counting the marks used."""
     items = []
-    kinds = ["text", "ctx", "mark", "ns", "inc", "cached", "loop", "call"] + (["cap"] if depth < 2 else [])
+    kinds = ["text", "ctx", "mark", "ns", "inc", "cached", "loop", "call", "mod"] + (["cap"] if depth < 2 else [])
     for _ in range(n_items):
         k = rng.choice(kinds)
         if k == "text":
@@ -90,6 +91,9 @@ def concretise(items):
         elif k == "inc":
             lines.append('<%include file="inc.html"/>')
             prog += [{"op": "shared", "c": "inc"}, {"op": "emit", "tok": "i"}, {"op": "ctx"}]
+        elif k == "mod":
+            lines.append("${pm.shout(who)}")
+            prog += [{"op": "emit", "tok": "m"}, {"op": "ctx"}]
         elif k == "call":
             lines.append('<%call expr="lib.wrap()">${who}</%call>')
             prog += [{"op": "shared", "c": "lib"}, {"op": "emit", "tok": "w"}, {"op": "ctx"}, {"op": "emit", "tok": "w"}]
@@ -124,12 +128,16 @@ def gen_world(rng, npages, n_items, bodies=None):
         marks[0] += 1
         body.append(("mark", marks[0]))
         lines, prog = concretise(body)
-        head = ['<%inherit file="base.html"/>', '<%namespace name="lib" file="lib.html"/>',
+        head = ['<%inherit file="base.html"/>', '<%namespace name="lib" file="lib.html"/>', '<%namespace name="pm" module="harness.c16_nsmod"/>',
                 '<%def name="title()">T ${who}</%def>', '<%def name="cd()" cached="True" cache_key="cd" ' + " ".join('cache_%s="%s"' % (a, v) for a, v in CACHE_KW) + ">c</%def>"]
         files["p%d.html" % p] = "\n".join(head + lines) + "\n"
         progs["p%d#title" % p] = [{"op": "emit", "tok": "T"}, {"op": "ctx"}]      # t.get_def("title").render(...)
         progs["p%d" % p] = ([{"op": "shared", "c": "base"}, {"op": "emit", "tok": "["}, {"op": "emit", "tok": "T"}, {"op": "ctx"},
                               {"op": "emit", "tok": "|"}] + prog + [{"op": "emit", "tok": "]"}])
+    # a page cached as a whole (<%page cached>): its content must not depend on the context, no marks inside
+    files["pc.html"] = ('<%page cached="True" cache_key="pg" ' + " ".join('cache_%s="%s"' % (a, v) for a, v in CACHE_KW) + "/>\npg k\n")
+    progs["pc"] = [{"op": "shared", "c": "cache", "kw": CACHE_KW}, {"op": "emit", "tok": "pg"}, {"op": "emit", "tok": "k"}]
+    files["ps.html"] = "f0 ${who}\n"          # the URI that put_string / put_template race for
     for g in ("gets1", "gets2", "gets3"):
         progs[g] = []                                                               # lookup calls only: no output
     return files, progs
@@ -169,7 +177,7 @@ class _SchedLock:
         self.release()
 
 
-HOT_FUNCS = {("lookup.py", None), ("util.py", "__getitem__"), ("util.py", "__setitem__"), ("util.py", "_manage_size"),
+HOT_FUNCS = {("lookup.py", None), ("util.py", "<lambda>"), ("util.py", "<genexpr>"), ("util.py", "<listcomp>"), ("util.py", "__getitem__"), ("util.py", "__setitem__"), ("util.py", "_manage_size"),
              ("util.py", "__get__"), ("util.py", "__init__"), ("cache.py", None), ("template.py", "cache"),
              ("template.py", "reserved_names"), ("template.py", "__init__"), ("runtime.py", "_lookup_template"),
              ("runtime.py", "_render"), ("runtime.py", "_include_file"), ("runtime.py", "_inherit_from"),
@@ -190,7 +198,7 @@ class _Tracer:
         w = self.cache.get(code)
         if w is None:
             fn = code.co_filename
-            if fn.endswith("_html"):
+            if fn.endswith("_html") or fn.endswith(".html.py"):
                 w = (True, self.hot is HOT_FUNCS)
             elif fn.startswith(self.mako_dir):
                 b = os.path.basename(fn)
@@ -220,6 +228,7 @@ def run_render_execution(sc, chooser, root, timeout=30.0):
     """sc: {"threads": {name: (page, ctx)}, "cap": n, "all_files": bool}; files already in `root`."""
     import mako
     import mako.lookup as ml
+    import mako.template as mt
     import mako.util as mu
     _STORE.clear()
     S = sched.Scheduler(chooser, timeout=timeout)
@@ -234,7 +243,15 @@ def run_render_execution(sc, chooser, root, timeout=30.0):
         # LRU eviction import it again
         _CUR["n"] = _CUR.get("n", 0) + 1
         moddir = os.path.join(root, "mods%d" % _CUR["n"])
-    lk = ml.TemplateLookup(dirs, collection_size=cap if cap else -1, cache_impl="mvdict", module_directory=moddir)
+    kw = {}
+    if sc.get("modname"):
+        # modulename_callable instead of module_directory: the lookup asks the application where the module file goes
+        _CUR["n"] = _CUR.get("n", 0) + 1
+        mdir = os.path.join(root, "mn%d" % _CUR["n"])
+        os.makedirs(mdir, exist_ok=True)
+        kw["modulename_callable"] = lambda filename, uri: os.path.join(mdir, uri.strip("/").replace("/", "_") + ".html.py")
+    lk = ml.TemplateLookup(dirs, collection_size=cap if cap else -1, cache_impl="mvdict", module_directory=moddir,
+                           filesystem_checks=sc.get("fsc", True), cache_enabled=sc.get("cache_enabled", True), **kw)
     lk._mutex = _SchedLock(S)
     if cap:
         class LoggedLRU(mu.LRUCache):
@@ -282,11 +299,29 @@ def run_render_execution(sc, chooser, root, timeout=30.0):
                             lk.has_template(uri)
                         elif op == "adjust":
                             lk.adjust_uri(uri, rel)
+                        elif op == "getr":          # get + render: which version of the URI did this call serve?
+                            S.log({"th": name, "ev": "get_begin", "uri": uri})
+                            o = lk.get_template(uri).render(who=ctx).split()
+                            S.log({"th": name, "ev": "got", "uri": uri, "ver": int(o[0][1:]), "who": o[1]})
+                        elif op in ("put", "puttmpl"):
+                            text = "s%d ${who}\n" % rel
+                            if op == "put":
+                                lk.put_string(uri, text)
+                            else:
+                                lk.put_template(uri, mt.Template(text, lookup=lk, uri=uri))
+                            S.log({"th": name, "ev": "put", "uri": uri, "ver": rel})
                 elif page.endswith("#title"):
-                    t = lk.get_template(page[:-6] + ".html")
+                    t = shared[page[:-6]] if sc.get("prefetch") else lk.get_template(page[:-6] + ".html")
                     toks = t.get_def("title").render(who=ctx, mk=marker(name)).split()
                 else:
-                    t = lk.get_template(page + ".html")
+                    if sc.get("direct"):
+                        # no lookup mutex: every thread constructs its own Template from the same file and module file
+                        t = mt.Template(uri=page + ".html", filename=os.path.join(root, page + ".html"), lookup=lk,
+                                        module_directory=moddir, cache_impl="mvdict")
+                    elif sc.get("prefetch"):
+                        t = shared[page]                # one long-lived Template object handed to every thread
+                    else:
+                        t = lk.get_template(page + ".html")
                     out = t.render(who=ctx, mk=marker(name))
                     toks = out.split()
             except sched.Abort:
@@ -298,6 +333,12 @@ def run_render_execution(sc, chooser, root, timeout=30.0):
                 sys.settrace(None)
             S.log({"th": name, "ev": "end", "out": toks, "exc": exc})
         return f
+    shared = {}
+    if sc.get("prefetch"):
+        for page, _ in sc["threads"].values():
+            b = page.split("#")[0]
+            if not b.startswith("gets") and b not in shared:
+                shared[b] = lk.get_template(b + ".html")
     for name in sorted(sc["threads"]):
         page, ctx = sc["threads"][name]
         S.spawn(name, worker(name, page, ctx))
@@ -447,12 +488,69 @@ def render_jobs(run, thorough):
                "gets3": [["get", "base.html", None], ["get", "p2.html", None], ["adjust", "base.html", "p1.html"], ["get", "inc.html", None],
                          ["adjust", "inc.html", "p1.html"], ["get", "lib.html", None]]}
     getters = {"A": ("gets1", "A"), "B": ("gets2", "B"), "C": ("gets3", "C")}
+    # directed, lookup-only (fast executions): every single preemption inside LRUCache.__setitem__ / _manage_size (and whatever
+    # callables they iterate with) and inside the second-chance / store path of _load, while the other thread adds, reads
+    # and trims entries of the same two LRUs
+    churn = {"gets1": [["adjust", "a.html", "p1.html"], ["get", "p1.html", None], ["adjust", "b.html", "p1.html"], ["get", "inc.html", None],
+                       ["adjust", "inc.html", "p1.html"], ["get", "p1.html", None], ["adjust", "c.html", "p1.html"]],
+             "gets2": [["adjust", "inc.html", "p1.html"], ["get", "inc.html", None], ["adjust", "d.html", "p2.html"], ["get", "p1.html", None],
+                       ["adjust", "a.html", "p1.html"], ["get", "lib.html", None], ["adjust", "inc.html", "p1.html"]]}
+    churners = {"A": ("gets1", "A"), "B": ("gets2", "B")}
+    lru_hot = [["util.py", "__setitem__"], ["util.py", "_manage_size"], ["util.py", "<lambda>"], ["util.py", "<genexpr>"],
+               ["util.py", "<listcomp>"], ["util.py", "__init__"]]
+    add("l2-lru-publish-trim-cap1-pb1", churners, 1, 1, 1, "pb", bound=1, limit=3000 if thorough else 500, extra={"gets": churn},
+        hot=lru_hot)
+    add("l2-lru-publish-trim-cap2-pb1", churners, 1, 1, 2, "pb", bound=1, limit=3000 if thorough else 300, extra={"gets": churn},
+        hot=lru_hot)
+    add("l2-second-chance-store-pb1", churners, 1, 1, 1, "pb", bound=1, limit=3000 if thorough else 300, extra={"gets": churn},
+        hot=[["lookup.py", "_load"], ["lookup.py", "get_template"], ["lookup.py", "_check"], ["lookup.py", "adjust_uri"]])
     add("l3-gets-cap1-random", getters, 2, 2, 1, "random", num=30 * k, p=0.04, extra={"gets": lookups})
     add("l3-gets-cap2-pct", getters, 2, 2, 2, "pct", num=30 * k, depth=3, length=3000, extra={"gets": lookups})
     # a module directory and two template directories; a def rendered on its own (get_def) next to full renders
     mixed = {"A": ("p1", "A"), "B": ("p1#title", "B"), "C": ("p2", "C")}
     add("r3-moddir-2dirs-random", mixed, 2, 5, 1, "random", num=25 * k, p=0.02, extra={"moddir": True, "dirs2": True})
     add("r2-moddir-pct", two_pages, 2, 5, 2, "pct", num=25 * k, depth=3, length=3000, extra={"moddir": True})
+    # ---- option vectors of the lookup ------------------------------------------------------------------------------
+    # module_directory: first requests for one URI write / import its module file (through the lookup, and by two threads
+    # constructing Template(filename=..., module_directory=...) themselves -- no lookup mutex there)
+    modfile_hot = [["template.py", "_compile_from_file"], ["template.py", "_compile_module_file"], ["template.py", "__init__"],
+                   ["lookup.py", "_load"]]
+    add("r2-same-moddir-pb1", same_page, 1, 0, 2, "pb", bound=1, limit=1500 if thorough else 100, bodies=[[("inc",), ("cached",)]],
+        extra={"moddir": True}, hot=modfile_hot)
+    add("r2-direct-moddir-pb1", same_page, 1, 0, 2, "pb", bound=1, limit=1500 if thorough else 120, bodies=[[("ctx",), ("inc",)]],
+        extra={"moddir": True, "direct": True}, hot=modfile_hot)
+    add("r3-direct-moddir-random", {"A": ("p1", "A"), "B": ("p1", "B"), "C": ("p1", "C")}, 1, 4, 2, "random", num=20 * k, p=0.03,
+        extra={"moddir": True, "direct": True})
+    add("r2-modname-random", two_pages, 2, 5, 2, "random", num=20 * k, p=0.02, extra={"modname": True})
+    # filesystem_checks=False; exactly as many URIs as the collection may hold (3 = 2 + 2/2: p1, base, lib); cache_enabled=False
+    add("r2-nochecks-atbound-pct", same_page, 1, 0, 2, "pct", num=25 * k, depth=3, length=2500,
+        bodies=[[("ns",), ("cached",), ("ctx",), ("mod",), ("call",)]], extra={"fsc": False})
+    add("r2-nocache-random", same_page, 1, 6, 2, "random", num=20 * k, p=0.03, extra={"cache_enabled": False})
+    # <%page cached>: the first cached render of one template from two threads (Template.cache is created lazily)
+    add("r2-pagecache-pb1", {"A": ("pc", "A"), "B": ("pc", "B")}, 1, 0, 2, "pb", bound=1, limit=1500 if thorough else 200,
+        hot=[["cache.py", None], ["template.py", "cache"], ["util.py", "__get__"]])
+    add("r3-pagecache-random", {"A": ("pc", "A"), "B": ("pc", "B"), "C": ("p1", "C")}, 1, 4, 2, "random", num=20 * k, p=0.03)
+    # ---- shared objects other than the lookup -----------------------------------------------------------------------
+    # one long-lived Template object (fetched before the threads start) rendered by three threads; get_def() renders;
+    # the module namespace (<%namespace module=...>): one Python module object used by every render
+    add("r3-shared-template-random", {"A": ("p1", "A"), "B": ("p1", "B"), "C": ("p1#title", "C")}, 1, 7, 2, "random", num=25 * k,
+        p=0.03, extra={"prefetch": True})
+    add("r3-getdef-pct", {"A": ("p1#title", "A"), "B": ("p1#title", "B"), "C": ("p1", "C")}, 1, 5, 2, "pct", num=25 * k, depth=3,
+        length=2500)
+    add("r2-nsmodule-pb1", same_page, 1, 0, 2, "pb", bound=1, limit=1500 if thorough else 100, bodies=[[("mod",), ("ctx",), ("mod",)]],
+        hot=[["runtime.py", "__init__"], ["runtime.py", "__getattr__"], ["runtime.py", "_populate_self_namespace"]])
+    # ---- put_string / put_template racing with get_template of the same URI (unbounded collection: LRU eviction of put
+    # entries is C14's finding F05) ----------------------------------------------------------------------------------
+    puts = {"gets1": [["put", "ps.html", 1], ["get", "inc.html", None], ["puttmpl", "ps.html", 2]],
+            "gets2": [["getr", "ps.html", None], ["getr", "ps.html", None], ["getr", "ps.html", None]],
+            "gets3": [["getr", "ps.html", None], ["get", "p1.html", None], ["getr", "ps.html", None]]}
+    add("l3-puts-pb2", getters, 1, 1, 0, "pb", bound=2, limit=3000 if thorough else 150, extra={"gets": puts},
+        hot=[["lookup.py", "get_template"], ["lookup.py", "_load"], ["lookup.py", "_check"], ["lookup.py", "put_string"],
+             ["lookup.py", "put_template"]])
+    add("l2-puts-load-pb1", {"A": ("gets1", "A"), "B": ("gets2", "B")}, 1, 1, 0, "pb", bound=1, limit=1500 if thorough else 300,
+        extra={"gets": puts},
+        hot=[["lookup.py", "_load"], ["lookup.py", "put_string"], ["lookup.py", "put_template"]])
+    add("l3-puts-random", getters, 1, 1, 0, "random", num=40 * k, p=0.05, extra={"gets": puts})
     # directed: every single preemption inside TemplateLookup.adjust_uri / filename_to_uri (the URI cache is an LRU that
     # other threads trim) while the other thread renders a page that adds URI-cache entries
     add("r2-uricache-pb1", two_pages, 2, 0, 1, "pb", bound=1, limit=400,
@@ -540,6 +638,7 @@ def judge_renders(run, jobs, outs, tw, tlc_pool):
 
     def finish():
         summary = {}
+        outside = run.extra.setdefault("outside_property_observations", {})
         for g, f in zip(glist, futs):
             verdicts = f.result()
             run.traces -= len(g["ncs"])
@@ -552,6 +651,19 @@ def judge_renders(run, jobs, outs, tw, tlc_pool):
                 sm["schedules"] += 1
                 v = verdicts[t["id"]]
                 run.transitions += len(t["events"])
+                if "gets" in job["sc"] and any(x["ev"] == "put" for x in t["events"]):
+                    # put_string / put_template are not operations of C16: what the linearizability clause sees is reported
+                    # as an observation outside the property, never as a violation
+                    ob = outside.setdefault("put-vs-load", {"schedules": 0, "lost_put": 0, "other": 0, "example": None})
+                    ob["schedules"] += 1
+                    for o_ in v.get("obs", []):
+                        if o_ == "put-vs-load:older-than-completed-put":
+                            ob["lost_put"] += 1
+                            if ob["example"] is None:
+                                ob["example"] = {"scenario": job["name"], "schedule": t["schedule"],
+                                                 "events": [x for x in t["events"] if x["ev"] in ("get_begin", "got", "put")]}
+                        else:
+                            ob["other"] += 1
                 if not v["ok"]:
                     sm["rejected"] += 1
                     i = v["i"]
